@@ -44,6 +44,7 @@ class Contract:
         self.hints = kw.pop("hints", {})     # clause name -> invariant names its proof needs (others are dropped in the focused stage)
         self.clause_props = kw.pop("clause_props", {})   # clause-name prefix -> properties it belongs to (default: all of serves)
         self.ensures_local = _named(kw.pop("ensures_local", {}), "local")   # postconditions that may mention locals
+        self.snapshots = dict(kw.pop("snapshots", {}))     # label -> "<target> = <callee>": state recorded right after that assignment, read with at("label", expr)
         self.not_assumed = kw.pop("not_assumed", [])   # clauses with an open finding: checked here, never assumed by callers
         self.bounded_clauses = kw.pop("bounded_clauses", [])   # ensures clauses left to the bounded stand-in (no solver attempt)
         self.alloc_facts = kw.pop("alloc_facts", False)   # assume entry-state references denote objects allocated at entry
